@@ -57,6 +57,11 @@ Calls ==
     \* a partial that rebinds its own argument and hands it on: the new value is what every later read sees
     Render_(S("p3"), <<Arg("a", S("i"))>>), RenderWith(S("p3"), S("w"), "a", <<>>), RenderFor(S("p3"), Range(1, 2), "a", <<>>),
     Include_(S("p3"), <<Arg("a", S("i"))>>),
+    \* a name is looked up exactly as spelled: padded names are other names (and unknown here), under every policy
+    Include_(S("p "), <<>>), Render_(S(" p"), <<>>), Render_(S("q "), <<>>), Include_(S(" "), <<>>),
+    \* partials that print and then ask to continue / break: per element in the for-as form, through include in a caller loop
+    RenderFor(S("p4"), Range(5, 7), "a", <<>>), RenderFor(S("p5"), Range(5, 7), "a", <<>>), Render_(S("p4"), <<Arg("a", S("i"))>>),
+    Include_(S("p4"), <<Arg("a", S("i"))>>), Include_(S("p5"), <<Arg("a", S("i"))>>),
     Include_(S("empty"), <<>>), Render_(S("empty"), <<>>), Include_(S("blank"), <<>>), Render_(S("blank"), <<Arg("a", S("i"))>>) }
 
 \* two uses of related names within one parser lifetime (both spellings of a
@@ -70,7 +75,7 @@ Callers ==
   {<<c1, Txt("|"), c2, Txt("|"), c1, Txt("$")>> : c1 \in Duals, c2 \in Duals}
 
 Parts(body) ==
-  [n \in {"p", "p2", "q.liquid", "broken", "broken.liquid", "p.liquid", "empty", "blank", "p3"} |->
+  [n \in {"p", "p2", "q.liquid", "broken", "broken.liquid", "p.liquid", "empty", "blank", "p3", "p4", "p5"} |->
      CASE n = "p" -> [ok |-> TRUE, body |-> body]
        [] n = "p2" -> [ok |-> TRUE, body |-> P2Body]
        [] n = "q.liquid" -> [ok |-> TRUE, body |-> <<Txt("Q"), Read("a")>>]
@@ -79,6 +84,8 @@ Parts(body) ==
        [] n = "p.liquid" -> [ok |-> TRUE, body |-> <<Txt("PL"), Read("b")>>]
        [] n = "p3" -> [ok |-> TRUE, body |-> <<Assign_("a", S("q")), Render_(S("p2"), <<Arg("b", V("a"))>>), Include_(S("p2"), <<Arg("b", V("a"))>>),
                                               Assign_("a", Lit(BoolV(FALSE))), Read("a"), Assign_("x", Lit(NilV)), Read("x")>>]
+       [] n = "p4" -> [ok |-> TRUE, body |-> <<Out(V("a")), [t |-> "continue"], Txt("!")>>]
+       [] n = "p5" -> [ok |-> TRUE, body |-> <<Out(V("a")), [t |-> "break"], Txt("!")>>]
        [] n = "empty" -> [ok |-> TRUE, body |-> <<>>]
        [] n = "blank" -> [ok |-> TRUE, body |-> <<Txt(" ")>>]]
 
